@@ -7,6 +7,15 @@ from checks import overlay
 class TheCheck(Check):
     prop = "C11"
     multi = True
+    # the fault-freedom obligations of the container / decoder / hash / string models (see Props/C11.lean)
+    also_audit = tuple("Qlibc.Props." + n for n in (
+        "C02.put_preserves_llrb", "C02.remove_preserves_llrb", "C02.reachable_llrb",
+        "C03.walk_complete", "C04.nearest_terminates",
+        "C09.walk_spec", "C09.get_obj_spec", "C09.history_refines",
+        "C10.removeat_no_overlap", "C10.history_refines",
+        "C17.urlDecode_safe", "C17.b64Decode_safe", "C17.hexDecode_safe", "C17.parseQueries_safe",
+        "C18.reads_in_bounds",
+        "C19.replace_fits", "C19.strcpy_bounded", "C19.trim_writes_in_contract", "C19.tok_writes_in_contract"))
     rule = ("operation histories of every modelled container, executed by the C code (ASan+UBSan+LSan build, allocator "
             "traffic of the library counted and controllable through harness/allocwrap.h) and by the Lean models; "
             "distinct_nontrivial = distinct (stream, operation, result) triples")
